@@ -17,8 +17,8 @@ import (
 // on GOARCH=386, which is one of the configurations analysed), int32/uint32 and smaller, float32. A narrowed id stored
 // in a feature differs from the element's id for ids above 2^31 (OSM node ids passed that in 2013).
 //
-// One obligation per (what the narrowed value feeds, where the id comes from), e.g.
-// `id-width@properties["id"] osm.NodeID` — not per function or position: the same store reached through an extracted
+// One obligation per (what the narrowed value feeds, where the id comes from, the narrow type), e.g.
+// `id-width@properties["id"] osm.NodeID as int` — not per function or position: the same store reached through an extracted
 // helper (`newFeature(…, ref int64, …)` storing `int(ref)` for all builders) keeps its constructs, because a plain
 // int64 is followed back through locals, parameters and call sites to the osm ids it was made from.
 func c17G10(r *core.R) {
@@ -82,7 +82,12 @@ func c17G10(r *core.R) {
 			}
 			for _, s := range srcs {
 				found++
-				r.Bad("id-width@"+sink+" "+s, call.Pos(), "`%s` in %s narrows a 64-bit id (%s) to %s before it reaches %s: %s is 32 bits wide on 32-bit configurations (GOARCH=386 is built and analysed), so an id above 2^31-1 comes out as a different number than the element's id", src(fset, call), fn.Name(), s, narrow, sink, narrow)
+				width := narrow + " is narrower than 64 bits on every configuration"
+				if b, ok := tv.Type.Underlying().(*types.Basic); ok && (b.Kind() == types.Int || b.Kind() == types.Uint || b.Kind() == types.Uintptr) {
+					width = narrow + " is 32 bits wide on 32-bit configurations (GOARCH=386 is built and analysed)"
+				}
+				// the target type is part of the key: a known finding for `int(...)` must not cover a later `int32(...)`
+				r.Bad("id-width@"+sink+" "+s+" as "+narrow, call.Pos(), "`%s` in %s narrows a 64-bit id (%s) to %s before it reaches %s: %s, so an id above 2^31-1 comes out as a different number than the element's id", src(fset, call), fn.Name(), s, narrow, sink, width)
 			}
 			return true
 		})
